@@ -25,12 +25,13 @@ DoReply(i) == CanPush /\ CanReply(st, i) /\ st' = Reply(st, i)
 DoStray(i) == Faults /\ CanPush /\ CanStray(st, i) /\ st' = Stray(st, i)
 DoDup(i)   == Faults /\ CanPush /\ CanDup(st, i) /\ st' = Dup(st, i)
 DoGarbage  == Faults /\ CanPush /\ st' = Garbage(st)
+DoBadBody(i) == Faults /\ CanPush /\ CanReply(st, i) /\ st' = BadBody(st, i)
 DoClose    == Faults /\ ~st.closed /\ st' = Close(st)
 SetMode(m) == m \in Modes /\ m # st.sendMode /\ st' = [st EXCEPT !.sendMode = m]
 
 Next == \/ \E t \in Id : StepFut(t) \/ Drop(t)
         \/ StepCaller \/ Start(TRUE) \/ Start(FALSE)
-        \/ \E i \in Id : DoReply(i) \/ DoDup(i)
+        \/ \E i \in Id : DoReply(i) \/ DoDup(i) \/ DoBadBody(i)
         \/ \E i \in 1..(N+1) : DoStray(i)
         \/ DoGarbage \/ DoClose \/ DropC
         \/ \E m \in {"free", "before", "after"} : SetMode(m)
@@ -43,7 +44,7 @@ Spec == Init /\ [][Next]_vars /\ Fairness
 
 InvSafety   == Safety(st)
 InvProgress == NoOneLeftWaiting(st)
-InvSurvivor == SurvivorsOk(st)
+InvSurvivor == SurvivorsOk(st) /\ DamageStaysWithOwner(st)
 InvNoLoss   == NoLoss(st)
 InvClose    == CloseIsError(st)
 (* liveness form of C05 progress: without faults, drops and with the send side eventually free, *)
